@@ -236,7 +236,7 @@ def _content(variant, arg, step):
         sl,
         coll,
         some + 'case(%s ~ %sCollectorResult::Delivery(_)) > %s' % (res, CCOL, get),
-        some + 'case(%s ~ %sCollectorResult::Delivery(_)) > %ssend(<std::option::Option<T> as snafu::OptionExt<T>>::context(%s, errors::UnknownConsumerTagSnafu{channel_id: %s, consumer_tag: %s})?, consumer::ConsumerMessage::Delivery(%s.Delivery.0.1))'
+        some + 'case(%s ~ %sCollectorResult::Delivery(_)) > %ssend(std::option::Option::ok_or(%s, errors::Error::UnknownConsumerTag{channel_id: %s, consumer_tag: %s})?, consumer::ConsumerMessage::Delivery(%s.Delivery.0.1))'
         % (res, CCOL, CS, get, ch, tag, res),
         some + 'case(%s ~ %sCollectorResult::Return(_)) > %stry_send_return(%s?, %s.Return.0)' % (res, CCOL, CS, sl, res),
         some + 'case(%s ~ %sCollectorResult::Get(_)) > %ssend(%s?.tx, Ok(io_loop::ChannelMessage::GetOk(Some(%s.Get.0))))' % (res, CCOL, CS, sl, res),
